@@ -46,6 +46,7 @@ type frame struct {
 	depth            int
 	recvAliasPrefix  string // loop scan: heap class prefix of an embedded-struct receiver
 	recvAliasType    types.Type
+	scanState        *State // loop scan: the state at the loop head (to resolve locals holding function literals)
 }
 
 // fctx is the verification context of one function under contract.
